@@ -3,6 +3,8 @@ import GlueVerif.Lemmas.CoordsAdjugate
 import GlueVerif.Lemmas.CoordsClosure
 import GlueVerif.Lemmas.CoordsViews
 import GlueVerif.Lemmas.CoordsLinks
+import GlueVerif.Lemmas.C15Scale
+import GlueVerif.Model.C15Float
 /-!
 # C15 — world coordinates, their links and inverses agree with the coordinate object
 
@@ -132,6 +134,37 @@ theorem inverse_pattern_covered (c : Coord) (hwf : c.wf = true) (p : Nat) (hp : 
   · exact Or.inl h
   · exact Or.inr (Lemmas.Coords.invRow_subset_worldDep c hwf p w hp hw h)
 
+/-! ## the correlation pattern is exact at every magnitude (round-2 strengthening)
+
+The shortcuts (`pixel2world_single_axis`, `world2pixel_single_axis`, `dependent_axes`) are driven by
+`axis_correlation_matrix`.  The property can only hold if that pattern is the *exact* non-zero
+pattern of the matrix: a coefficient of 1e-10 (wavelength in metres per channel) or 1e-300 is a
+dependence.  The model's `Coord.corr` — what the differential check compares the implementation's
+`axis_correlation_matrix` with, on a ladder of magnitudes from 2⁻⁹⁹⁷ to 2¹⁰⁰ — is characterised by: -/
+
+/-- `axis_correlation_matrix[w][p]` is set **iff** world coordinate `w` really depends on pixel
+coordinate `p` (some displacement of pixel coordinate `p` alone changes it).  No threshold: any
+non-zero coefficient counts, whatever its size.  Any dimension, identity and affine coordinates. -/
+theorem corr_matrix_exact (c : Coord) (w p : Nat) (hw : w < c.n) (hp : p < c.n) :
+    c.corr w p = true ↔
+      ∃ (x : List Rat) (d : Rat), x.length = c.n ∧
+        (c.p2w (x.set p (x.getD p 0 + d))).getD w 0 ≠ (c.p2w x).getD w 0 :=
+  Lemmas.Coords.corr_iff_depends c w p hw hp
+
+/-- Scaling the entries of the matrix by arbitrary non-zero factors (one factor `s w p` per entry:
+a uniform rescaling, a change of unit of one world axis = a row, a change of pixel size = a
+column, …) leaves `axis_correlation_matrix`, `dependent_axes` of every axis and the `world_dep`
+flags of `world2pixel_single_axis` unchanged: the shortcuts take the same decisions for a matrix
+with entries of size 1e-300 as for the same pattern with entries of size 1. -/
+theorem dep_scale_invariant (n : Nat) (m m' inv inv' : Mat) (s : Nat → Nat → Rat)
+    (hs : ∀ w p, s w p ≠ 0) (hm : ∀ w p, ent m' w p = s w p * ent m w p) :
+    (Coord.affine n m' inv').corr = (Coord.affine n m inv).corr ∧
+    (∀ a, Impl.dependentAxes (.affine n m' inv') a = Impl.dependentAxes (.affine n m inv) a) ∧
+    (∀ p, Impl.worldDep (.affine n m' inv') p = Impl.worldDep (.affine n m inv) p) :=
+  have hc := Lemmas.Coords.corr_scale_eq n m m' inv inv' s hs hm
+  ⟨hc, fun a => Lemmas.Coords.dependentAxes_congr (.affine n m inv) (.affine n m' inv') rfl hc a,
+   fun p => Lemmas.Coords.worldDep_congr (.affine n m inv) (.affine n m' inv') rfl hc p⟩
+
 /-! ## links -/
 
 /-- Every automatically created link computes what the transformation gives directly, for every
@@ -188,6 +221,27 @@ example : cPerm.p2w [1, 2] = [5, 5] ∧ cPerm.w2p [5, 5] = [1, 2] := by decide +
 def dataOf : Except ViewErr Arr → List Rat
   | .ok a => a.data
   | .error _ => []
+
+/-- A spectral axis in metres (2⁻³³ ≈ 1.2e-10 per channel, offset 2⁻²¹ ≈ 4.8e-7) next to an O(1) axis;
+the same pattern with the tiny entry replaced by 1. -/
+def cTiny : Coord := .affine 2 [[1 / 8589934592, 0, 1 / 2097152], [0, 1, 0], [0, 0, 1]]
+  [[8589934592, 0, -4096], [0, 1, 0], [0, 0, 1]]
+def cUnit : Coord := .affine 2 [[1, 0, 1 / 2097152], [0, 1, 0], [0, 0, 1]] [[1, 0, -(1 / 2097152)], [0, 1, 0], [0, 0, 1]]
+
+example : cTiny.wf = true ∧ cTiny.corr 0 0 = true ∧ Impl.dependentAxes cTiny 1 = [1] ∧
+    Impl.dependentAxes cTiny 1 = Impl.dependentAxes cUnit 1 ∧
+    dataOf (Spec.worldView cTiny [1, 3] 1 .all) = [1 / 2097152, 4097 / 8589934592, 2049 / 4294967296] ∧
+    dataOf (Impl.worldView cTiny [1, 3] 1 .all) = dataOf (Spec.worldView cTiny [1, 3] 1 .all) := by decide +kernel
+
+/-- The binary64 acceptance rules the driver applies to the implementation's doubles
+(`Model/C15Float.lean`) on this object: the elimination needs no row operation, so `W = |M|`; the
+world value of channel 2, `2·2⁻³³ + 2⁻²¹`, must be returned exactly; `world_to_pixel` of it must be
+within `2⁻³³` of pixel 2 (a fixed tolerance of 1e-9 *in world units* would be 8 channels). -/
+example : Flt.geppW 2 [[1 / 8589934592, 0, 1 / 2097152], [0, 1, 0], [0, 0, 1]]
+      = [[1 / 8589934592, 0, 1 / 2097152], [0, 1, 0], [0, 0, 1]] ∧
+    Flt.fwdTol cTiny 0 [2, 0] = 0 ∧
+    Flt.invTol (Flt.invCtx cTiny) 0 (cTiny.p2w [2, 0]) [0, 0] < 1 / 8589934592 ∧
+    Flt.fwdTol cTiny 0 [1 / 3, 0] > 0 ∧ Flt.rangeOk cTiny = true := by decide +kernel
 
 /-! ## witnesses: the pinned tree violates the property (finding F8) -/
 
